@@ -58,3 +58,87 @@ def _domain_iter_values(n):
 
 
 DOMAIN = {F + 'FastHierarchyAnalyzer._iter_neighborhood.<locals>._iter_values': _domain_iter_values}
+
+
+# ---------------------------------------------------------------- which selection choices get no design variable (C14)
+# of the choices tied by a LINKED constraint only the first one in the analyzer's own order (derivation level order)
+# keeps its variable; every later member is forced to follow it
+ENUMS = {'ChoiceConstraintType': {'LINKED': 1, 'PERMUTATION': 2, 'UNORDERED': 3, 'UNORDERED_NOREPL': 4}}
+CLASSES = {
+    'ChoiceConstraintS': {'type': 'Enum[ChoiceConstraintType]', 'nodes': 'List[Ref]'},
+    'DSGc': {},
+    'FastHierarchyAnalyzer': {'selection_choice_nodes': 'List[Ref]', 'selection_choice_option_nodes': 'Dict[Ref,List[Ref]]',
+                              'adsg': 'Ref[DSGc]'},
+}
+NODES = 'self.selection_choice_nodes'
+CONS = 'CL'
+# member(c, i): the i-th selection choice is listed by constraint c
+MEMBER = f'exists(m, 0, len({CONS}[c].nodes), {CONS}[c].nodes[m] == {NODES}[i])'
+CONTRACTS[F + 'FastHierarchyAnalyzer._get_selection_choice_is_forced'] = dict(
+    properties=['C14'],
+    types={'self': 'Ref[FastHierarchyAnalyzer]'},
+    returns='Np1[Bool]',
+    ghost={'CL': 'List[Ref[ChoiceConstraintS]]'},      # the list returned by self.adsg.get_choice_constraints()
+    locals={'is_forced': 'Np1[Bool]', 'i_choice_nodes': 'Dict[Ref,Int]', 'i_choices': 'List[Int]'},
+    requires={
+        'one-entry-per-choice': f'len(self.selection_choice_option_nodes) == len({NODES})',
+        'choices-listed-once': f'forall(a, 0, len({NODES}), forall(b, 0, len({NODES}), implies(a != b, {NODES}[a] != {NODES}[b])))',
+        'constraint-members-listed-once': f'forall(c, 0, len({CONS}), forall(a, 0, len({CONS}[c].nodes), forall(b, 0, len({CONS}[c].nodes), implies(a != b, {CONS}[c].nodes[a] != {CONS}[c].nodes[b]))))',
+    },
+    calls={'self.adsg.get_choice_constraints': dict(params=[], types={}, returns='List[Ref[ChoiceConstraintS]]', modifies=[], assumed=True,
+                                                    receiver='self.adsg', pure_expr='CL')},
+    defs={
+        'member': (('c', 'i'), MEMBER),
+        'follows': (('c', 'i'), f'{CONS}[c].type == ChoiceConstraintType.LINKED and member(c, i) and exists(j, 0, i, member(c, j))'),
+    },
+    loops={
+        'for choice_constraint in self.adsg.get_choice_constraints()': dict(index='k', invariant={
+            'shape': f'len(is_forced) == len({NODES})',
+            'index-of-each-choice': f'forall(p, 0, len({NODES}), {NODES}[p] in i_choice_nodes and i_choice_nodes[{NODES}[p]] == p)',
+            'only-choices-indexed': f"forall('x:Ref', implies(x in i_choice_nodes, 0 <= i_choice_nodes[x] and i_choice_nodes[x] < len({NODES}) and {NODES}[i_choice_nodes[x]] == x))",
+            'forced-so-far': f'forall(i, 0, len({NODES}), is_forced[i] == exists(c, 0, k, follows(c, i)))',
+        }),
+        'for i_dep in i_choices[1:]': dict(index='q', invariant={
+            'shape': f'len(is_forced) == len({NODES})',
+            'index-of-each-choice': f'forall(p, 0, len({NODES}), {NODES}[p] in i_choice_nodes and i_choice_nodes[{NODES}[p]] == p)',
+            'only-choices-indexed': f"forall('x:Ref', implies(x in i_choice_nodes, 0 <= i_choice_nodes[x] and i_choice_nodes[x] < len({NODES}) and {NODES}[i_choice_nodes[x]] == x))",
+            'forced-so-far': f'forall(i, 0, len({NODES}), is_forced[i] == (exists(c, 0, k, follows(c, i)) or exists(a, 1, q + 1, i_choices[a] == i)))',
+        }),
+    },
+    ensures={
+        'one-flag-per-choice': ('property', f'len(result) == len({NODES})'),
+        'later-linked-members-follow-the-first': ('property', f'forall(i, 0, len({NODES}), result[i] == exists(c, 0, len({CONS}), follows(c, i)))'),
+    },
+    modifies=[],
+)
+
+
+def _domain_is_forced(n):
+    """Real fast analyzers of the constrained corpus graphs (LINKED and other constraints, permanent / hierarchical /
+    mutually exclusive placements, constraint order differing from level order)."""
+    import os
+    import sys
+    here = os.path.dirname(os.path.dirname(os.path.abspath(__file__)))
+    if here not in sys.path:
+        sys.path.insert(0, here)
+    from bounded import gen
+    from bounded.corpus import corpus
+    from adsg_core.optimization.hierarchy.fast import FastHierarchyAnalyzer
+    from adsg_core.graph.choice_constraints import ChoiceConstraintType
+    members = corpus(['con', 'conx', 'forced', 'conpart'], 'quick')
+    made = 0
+    for desc in members:
+        if made >= n:
+            break
+        try:
+            b = gen.Built(desc)
+            an = FastHierarchyAnalyzer(b.dsg)
+        except Exception:  # noqa
+            continue
+        made += 1
+        env = {'self': an, 'CL': list(an.adsg.get_choice_constraints()), 'ChoiceConstraintType': ChoiceConstraintType}
+        yield (env, (lambda an=an: an._get_selection_choice_is_forced()), {},
+               f'FastHierarchyAnalyzer(corpus member {desc.label})._get_selection_choice_is_forced()')
+
+
+DOMAIN = {F + 'FastHierarchyAnalyzer._get_selection_choice_is_forced': _domain_is_forced}
